@@ -397,13 +397,14 @@ func genWorldPlan(prop string, master uint64, run int) Plan {
 		pl.Cfg = neutralConfig(r)
 		b.parse(r.Chance(1, 4))
 		sw := setterWeights(r, []int{3, 2, 2, 3, 3, 3, 3, 2, 2})
-		kw := []int{10, r.Range(0, 4), r.Range(0, 2), 0, 0, 0}
+		kw := []int{10, r.Range(0, 4), r.Range(0, 2), 0, 0, 0, 0}
 		cross := 0
-		if r.Chance(1, 6) {
+		if r.Chance(1, 4) {
 			// the tenth setter, SetSearchParams, with lists of this URL, of other URLs, and of URLs that
 			// belong to a differently configured parser (made by that parser resolving against a base of
 			// this one). The invariants are asked of the URLs of the default parser only.
-			kw[3], kw[4], kw[5] = r.Range(1, 3), r.Range(1, 4), r.Range(1, 3)
+			kw[3], kw[4], kw[5], kw[6] = r.Range(1, 3), r.Range(1, 4), r.Range(1, 3), r.Range(0, 2)
+			kw[0] = r.Range(2, 10)
 			if r.Chance(2, 3) {
 				c2 := []Config{{Profile: "Semantic"}, {Profile: "GoogleSafeBrowsing"}, {Profile: "WhatWg"}, genConfig(r, true), genConfig(r, true)}[r.Intn(5)]
 				pl.Cfg2 = &c2
@@ -442,7 +443,18 @@ func genWorldPlan(prop string, master uint64, run int) Plan {
 					}
 					b.sps = append(keep, id)
 					b.spOf[id] = u
+					if r.Chance(1, 3) {
+						// motif: adopt a list, copy the adopter, go on working with the copy's list
+						c := b.clone(u)
+						cs := b.getsp(c)
+						for k := r.Range(1, 3); k > 0; k-- {
+							b.spMut(cs, true)
+						}
+					}
 				}
+			case 6:
+				// a copy of a URL that may hold an adopted list: the copy's list is its own from then on
+				b.clone(u)
 			}
 		}
 	case "C03":
